@@ -17,6 +17,8 @@ for n in lens:
     m = bytes(random.getrandbits(8) for _ in range(n))
     p = os.path.join(tmp, 'm'); open(p, 'wb').write(m)
     out = dict(l.split() for l in subprocess.check_output([os.path.join(tmp, 'ref'), p]).decode().splitlines())
+    if out.get('sha1ord') != 'ok':
+        print('MISMATCH sha1 re-ordered form', n); bad += 1
     for a in ('sha1', 'sha256', 'sha512'):
         if out[a] != hashlib.new(a, m).hexdigest():
             print('MISMATCH', a, n); bad += 1
